@@ -455,6 +455,25 @@ func c06(run *ev.Run, tier string) {
 		{"platform-not-linux", []string{"apk", "archlinux"}, func(s *gen.Spec) { s.Platform = "darwin" }},
 		{"archlinux-invalid-name", []string{"archlinux"}, func(s *gen.Spec) { s.Name = "bad name!" }},
 		{"archlinux-name-leading-dash", []string{"archlinux"}, func(s *gen.Spec) { s.Name = "-lead" }},
+		{"archlinux-name-non-ascii-letter", []string{"archlinux"}, func(s *gen.Spec) { s.Name = "café" }},
+		{"archlinux-name-cyrillic", []string{"archlinux"}, func(s *gen.Spec) { s.Name = "пакет" }},
+		{"archlinux-name-fullwidth-digit", []string{"archlinux"}, func(s *gen.Spec) { s.Name = "pkg１" }},
+		{"archlinux-name-upper-case-is-fine-but-blank-is-not", []string{"archlinux"}, func(s *gen.Spec) { s.Name = "pkg name" }},
+		{"key-id-unknown-dpkg-sig", []string{"deb"}, func(s *gen.Spec) {
+			s.Deb.Sig.KeyFile = testKey("privkey_unprotected.asc")
+			s.Deb.Sig.Method = "dpkg-sig"
+			s.Deb.Sig.KeyID = "0123456789abcdef"
+		}},
+		{"key-id-unknown", []string{"deb", "rpm"}, func(s *gen.Spec) {
+			s.Deb.Sig.KeyFile = testKey("privkey_unprotected.asc")
+			s.RPM.Sig.KeyFile = testKey("privkey_unprotected.asc")
+			s.Deb.Sig.KeyID = "0123456789abcdef"
+			s.RPM.Sig.KeyID = "0123456789abcdef"
+		}},
+		{"deb-signature-method-unknown", []string{"deb"}, func(s *gen.Spec) {
+			s.Deb.Sig.KeyFile = testKey("privkey_unprotected.asc")
+			s.Deb.Sig.Method = "DPKG-SIG"
+		}},
 		{"content-type-unknown", formats, func(s *gen.Spec) {
 			s.Contents = append(s.Contents, &gen.Content{Src: payload, Dst: "/opt/loud/q", Type: "no-such-type"})
 		}},
